@@ -25,6 +25,20 @@ CHECKS = {
         design='4 C09'),
 }
 
+CHECKS['C08'] = dict(
+    technique='Hypothesis-generated (class model, text) pairs with an '
+              'exception-type oracle; failures bucketed by (type, innermost '
+              'yatiml/yaml frame)',
+    text='Generated class models with every feature that can raise (raising '
+         'constructors and string-likes, SeasoningError in savorize, '
+         'permissive recognisers, extras, Any, Optional[Any]) are loaded with '
+         'rendered valid documents, 0-2 local mutations, explicit tags, '
+         'duplicate/complex/non-string/merge keys, ill-formed tagged scalars, '
+         'aliases and cycles, token soup and arbitrary unicode; any exception '
+         'other than RecognitionError/YAMLError is a violation, one finding '
+         'per root cause.',
+    design='4 C08')
+
 NOT_YET = 'check not built yet in this session (work in progress)'
 
 
